@@ -346,9 +346,15 @@ void AbstractDiscreteDistribution::discretizeEqualProportions()
 
       double mean = Expectation(intMinMax_->getUpperBound()) - Expectation(intMinMax_->getLowerBound());
 
-      for (i = 0; i < numberOfCategories_; i++)
+      // No such factor exists when the medians sum to zero (domain symmetric around 0):
+      // the medians are kept then.
+      double factor = mean / t / ec;
+      if (factor > 0 && factor < NumConstants::VERY_BIG())
       {
-        values[i] *= mean / t / ec;
+        for (i = 0; i < numberOfCategories_; i++)
+        {
+          values[i] *= factor;
+        }
       }
     }
     else
